@@ -77,7 +77,7 @@ func typesErr(a, b any) *RuntimeError {
 
 // Binary applies a binary operator per the documented rules.
 // op is one of + - * / == != < <= > >=.
-func Binary(op string, a, b any) (any, *RuntimeError) {
+func ApplyBinary(op string, a, b any) (any, *RuntimeError) {
 	switch op {
 	case "==":
 		return Equal(a, b), nil
@@ -203,7 +203,7 @@ func Equal(a, b any) bool {
 }
 
 // Unary applies unary minus or plus; only numbers are in the domain.
-func Unary(op string, a any) (any, *RuntimeError) {
+func ApplyUnary(op string, a any) (any, *RuntimeError) {
 	switch x := a.(type) {
 	case int:
 		if op == "-" {
